@@ -141,7 +141,14 @@ pub struct Ctx {
 impl Ctx {
     pub fn new(prop: &str, tier: Tier) -> Ctx {
         let seed = std::env::var("VERIF_SEED").ok().and_then(|s| s.parse::<i64>().ok()).unwrap_or(1) as u64;
-        let threads = std::env::var("VERIF_THREADS").ok().and_then(|s| s.parse().ok()).unwrap_or(16);
+        // checks whose cases start several OS threads themselves, or whose oracle includes a time
+        // limit, run fewer cases in parallel so that the machine is not oversubscribed
+        let default_threads = match prop {
+            "C15" | "C16" => 4,
+            "C17" => 8,
+            _ => 16,
+        };
+        let threads = std::env::var("VERIF_THREADS").ok().and_then(|s| s.parse().ok()).unwrap_or(default_threads);
         let verif_dir: std::path::PathBuf =
             std::env::var("VERIF_DIR").unwrap_or_else(|_| "/verif".to_string()).into();
         let known: Vec<KnownFinding> = std::fs::read_to_string(verif_dir.join("known-findings.json"))
